@@ -241,6 +241,17 @@ def _run_shard(exe, lines, timeout):
     return p
 
 
+def _big_stack():
+    """the extracted OCaml code is not tail recursive everywhere: give it a large stack"""
+    import resource
+    try:
+        soft, hard = resource.getrlimit(resource.RLIMIT_STACK)
+        want = resource.RLIM_INFINITY if hard == resource.RLIM_INFINITY else hard
+        resource.setrlimit(resource.RLIMIT_STACK, (want, hard))
+    except Exception:
+        pass
+
+
 def run_cases(exe, lines, shards=NPROC, timeout=1200):
     """lines: list of '<id> <fn> …'; returns {id: result string}. Lines are sharded round-robin."""
     if not lines:
@@ -251,7 +262,8 @@ def run_cases(exe, lines, shards=NPROC, timeout=1200):
         parts[i % shards].append(l)
     procs = []
     for part in parts:
-        p = subprocess.Popen([exe], stdin=subprocess.PIPE, stdout=subprocess.PIPE, stderr=subprocess.DEVNULL, text=True)
+        p = subprocess.Popen([exe], stdin=subprocess.PIPE, stdout=subprocess.PIPE, stderr=subprocess.DEVNULL, text=True,
+                             preexec_fn=_big_stack)
         procs.append((p, "\n".join(part) + "\n"))
     # feed via threads to avoid pipe deadlock
     import threading
